@@ -83,6 +83,9 @@ def run(ctx):
         fn(ctx)
     ctx.floor("F3", 3)
     ctx.floor("F5", 3)
+    # what has_specification answered from (the cached pruned dictionary) is still there when the specification is extracted
+    LK.k18_tree_searcher_purity(ctx)
+    ctx.floor("K18", 3)
     G.g9_ungroup_only_when_grouping(ctx)
     ctx.floor("G9", 1)
     from ..engines import storekeys as SKK
